@@ -26,7 +26,10 @@
 (* What is NOT asserted (AnyMD / not recorded):                            *)
 (*   - trailer metadata of a call the client ended itself (cancel or       *)
 (*     deadline): gRPC only defines trailers as part of the server status  *)
-(*   - anything the server observes after the client's context ended       *)
+(*   - anything the SERVER observes after the client's context ended (what  *)
+(*     its late SetHeader/SendHeader/Send return); what the CLIENT sees of   *)
+(*     a handler that carries on after the end of the context is asserted:   *)
+(*     nothing, once the handler has seen a cancellation                     *)
 (*     (grpc-go reports Canceled to a blocked Recv, the text of C13 only   *)
 (*     speaks about what the client observes)                              *)
 (*   - the request metadata when the handler may not have started          *)
@@ -63,7 +66,7 @@ New(shape, req) ==
    hs |-> NoMD, hsent |-> FALSE, hvis |-> NoMD, hknown |-> FALSE, tr |-> NoMD,
    resp |-> 0, ssent |-> <<>>, inflight |-> <<>>, creq |-> <<>>,
    ret |-> FALSE, rcode |-> "", rv |-> 0,
-   cx |-> "no", retAtCx |-> FALSE, entAtCx |-> FALSE, sawCx |-> FALSE, hcx |-> 0,
+   cx |-> "no", retAtCx |-> FALSE, entAtCx |-> FALSE, sawCx |-> FALSE, waited |-> FALSE, hlate |-> {}, sfl |-> FALSE, hcx |-> 0,
    pend |-> "-", term |-> NoTerm, src |-> "-",
    msgs |-> <<>>, hdrs |-> <<>>, trls |-> <<>>, srecv |-> <<>>]
 
@@ -71,12 +74,14 @@ New(shape, req) ==
 (* Semantics                                                               *)
 
 \* headers go out once: with SendHeader, the first message or the status
-Flush(st) == IF st.hsent THEN st ELSE [st EXCEPT !.hsent = TRUE, !.hvis = st.hs]
+\* (sfl: the handler has had its headers written, SetHeader / SendHeader are errors from then on)
+Flush(st) == IF st.hsent THEN [st EXCEPT !.sfl = TRUE] ELSE [st EXCEPT !.hsent = TRUE, !.hvis = st.hs, !.sfl = TRUE]
 
 CtxTerm(st) == Term(st.cx, "")
 \* header metadata a client can still see once its context has ended: what it already
 \* knew, else whatever made it across in time
-HdrOpts(st) == IF st.hknown THEN {st.hvis} ELSE IF st.hsent THEN {st.hvis, NoMD} ELSE {NoMD}
+HdrOpts(st) == IF st.hknown THEN {st.hvis}
+               ELSE (IF st.hsent THEN {st.hvis, NoMD} ELSE {NoMD}) \cup st.hlate
 
 ServerTerminal(st) ==
   LET t == StatusSeen(st.rcode, st.rv) IN
@@ -152,10 +157,24 @@ ServerOp(st, e, i) ==
   ELSE
     \* the client is gone: the only thing that can still reach it is what was sent while
     \* its context ended
-    CASE e.s = "send" /\ e.c \in {"cancel", "deadline"} -> [Flush(st) EXCEPT !.inflight = Append(@, e.v), !.ssent = Append(@, e.v)]
+    CASE e.c \in {"cancel", "deadline"} /\ e.s = "send" -> [Flush(st) EXCEPT !.inflight = Append(@, e.v), !.ssent = Append(@, e.v)]
+      [] e.c \in {"cancel", "deadline"} /\ e.s # "wait" -> st
       \* seeing the context end on the server proves that the client side has processed a
       \* cancellation (that is what resets the stream); a deadline also fires on the server's own timer
-      [] e.s = "wait" -> [st EXCEPT !.sawCx = (st.cx = "Canceled")]
+      [] e.s = "wait" -> [st EXCEPT !.sawCx = (st.cx = "Canceled"), !.waited = TRUE]
+      \* A handler that carries on after it has seen its context end (it never looks at the
+      \* errors).  After a cancellation nothing of that reaches the client any more: the stream
+      \* was reset before the handler saw it.  After a deadline the two ends expire on their own
+      \* timers, so what the handler flushes may still arrive: any header flush may be the one
+      \* the client sees (hlate), a message may be read (inflight).
+      [] e.s \in {"sendhdr", "send"} /\ st.sawCx -> [st EXCEPT !.sfl = TRUE]
+      [] e.s \in {"sethdr", "settrl"} /\ st.sawCx -> st
+      [] e.s = "sethdr" -> [st EXCEPT !.hs = AddMD(@, e.md)]
+      [] e.s = "sendhdr" -> LET h == AddMD(st.hs, e.md) IN [st EXCEPT !.hs = h, !.hlate = @ \cup {h}, !.sfl = TRUE]
+      [] e.s = "settrl" -> [st EXCEPT !.tr = AddMD(@, e.md)]
+      [] e.s = "send" ->
+           LET f == [st EXCEPT !.hlate = @ \cup {st.hs}, !.ssent = Append(@, e.v), !.sfl = TRUE] IN
+           IF Single(st.shape) THEN [f EXCEPT !.resp = e.v] ELSE [f EXCEPT !.inflight = Append(@, e.v)]
       \* a handler that returns without having seen the end of the context may still get its
       \* status through before the client side has processed the cancellation
       [] e.s = "return" ->
@@ -255,6 +274,15 @@ Legal(st, D) ==
   \* ---- after the client's context ended
   (IF st.opened /\ st.cx # "no" THEN
      (IF srun THEN {S("-", "wait")} \cup R(S("-", "return")) ELSE {})
+     \* the handler goes on regardless, once it has certainly seen the end of its context
+     \* (so that nothing here depends on what is still in flight)
+     \cup (IF srun /\ st.waited /\ streamy THEN
+             \* (as before the end of the context: no SetHeader / SendHeader once the handler has
+             \*  had its headers written -- gRPC refuses those, the wrapper does not, the text of
+             \*  C13 says nothing about a server that ignores the refusal: not generated)
+             (IF ~st.sfl THEN M(S("-", "sethdr")) \cup M(S("-", "sendhdr")) ELSE {}) \cup M(S("-", "settrl"))
+             \cup (IF (Multi(shape) \/ (shape = "cstream" /\ st.resp = 0)) /\ Len(st.ssent) < D.maxs THEN V(S("-", "send")) ELSE {})
+           ELSE {})
      \cup (IF streamy /\ ~st.term.has THEN {S("recv", "-")} ELSE {})
      \cup (IF streamy /\ st.hcx = 0 THEN {S("header", "-")} ELSE {})
      \cup (IF streamy /\ st.term.has THEN {S("trailer", "-")} ELSE {})
